@@ -1,0 +1,85 @@
+//go:build verif
+
+// Contracts for the deductive checks under /verif (comment-only; no code).
+
+package message
+
+// ---- C34: blocks parsed from the wire are self-certifying; want-list entries merge by fixed rules ---
+// sumCid(p, data): the CID a prefix assigns to some bytes (the hash function of the system)
+//@ spec sumCid(p cid.Prefix, data []byte) cid.Cid
+//@ spec blockBytes(b blocks.Block) []byte
+//@ spec blockCid(b blocks.Block) cid.Cid
+//@ spec v0Cid(data []byte) cid.Cid
+//@ func ext (github.com/ipfs/go-cid.Prefix).Sum
+//@   ensures err == nil ==> result0 == sumCid(p, data)
+//@ func ext (github.com/ipfs/go-cid.Cid).Equals
+//@   ensures result == (c == o)
+//@ func ext (github.com/ipfs/go-cid.Cid).Defined
+//@   ensures c == cid.Undef ==> !result
+//@ func iface github.com/ipfs/go-block-format.Block.Cid
+//@   ensures result == blockCid(self)
+//@ func iface github.com/ipfs/go-block-format.Block.RawData
+//@   ensures result == blockBytes(self)
+//@ func ext github.com/ipfs/go-block-format.NewBlockWithCid
+//@   ensures err == nil ==> result0 != nil && blockBytes(asIface(result0)) == data && blockCid(asIface(result0)) == c
+// (legacy v0 blocks: CIDv0 = sha2-256 of the data, computed by the block constructor itself)
+//@ func ext github.com/ipfs/go-block-format.NewBlock
+//@   ensures result != nil && blockBytes(asIface(result)) == data && blockCid(asIface(result)) == v0Cid(data)
+
+// a block built from a wire payload carries the CID computed from its own bytes
+//@ func NewWantlistBlock
+//@   prop C34
+//@   arith int
+//@   modifies nothing
+//@   ensures[cid_from_own_bytes] err == nil ==> result0 != nil && blockBytes(result0) == bs && blockCid(result0) == sumCid(prefix, bs)
+//@   ensures[expected_cid_enforced] err == nil && res("call:Defined#0", 0) ==> blockCid(result0) == c
+
+// representation invariant of a message under construction
+//@ macro wfMsg(m) = m != nil && m.wantlist != nil && m.blocks != nil && m.blockPresences != nil && m.blocks != m.blockPresences && m.wantlist != m.blockPresences && all(k cid.Cid, has(m.wantlist, k) ==> m.wantlist[k] != nil)
+//@ macro sameMaps(m) = m.wantlist == old(m.wantlist) && m.blocks == old(m.blocks) && m.blockPresences == old(m.blockPresences)
+
+// every block a parsed message holds went through NewWantlistBlock (payload) or NewBlock (legacy):
+// no wire field can label a block with a CID of the sender's choice
+//@ func (*impl).AddBlock
+//@   prop C34
+//@   arith int
+//@   requires[wf] wfMsg(m)
+//@   modifies mapof(m.blocks), mapof(m.blockPresences)
+//@   ensures[stored_under_its_own_cid] has(m.blocks, blockCid(b)) && m.blocks[blockCid(b)] == b
+//@   ensures[a_block_replaces_its_presence] !has(m.blockPresences, blockCid(b))
+//@ func (*impl).AddBlockPresence
+//@   prop C34
+//@   arith int
+//@   requires[wf] wfMsg(m)
+//@   modifies mapof(m.blockPresences)
+//@   ensures[no_presence_for_a_held_block] has(m.blocks, c) ==> has(m.blockPresences, c) == old(has(m.blockPresences, c))
+//@   ensures[recorded_otherwise] !has(m.blocks, c) ==> has(m.blockPresences, c) && m.blockPresences[c] == t
+//@ func New
+//@   assumed
+//@   ensures fresh(result) && wfMsg(result)
+//@ func (*impl).addEntry
+//@   prop C34
+//@   arith int-assumed
+//@   dyn calldyn noeffect
+//@   requires[wf] wfMsg(m)
+//@   modifies all
+//@   ensures[wf] wfMsg(m) && sameMaps(m)
+//@   ensures[new_entry_as_given] !old(has(m.wantlist, c)) ==> has(m.wantlist, c) && m.wantlist[c].Entry.Cid == c && m.wantlist[c].Entry.Priority == priority && m.wantlist[c].Entry.WantType == wantType && m.wantlist[c].Cancel == cancel && m.wantlist[c].SendDontHave == sendDontHave
+//@   ensures[merge_cancel_is_sticky] old(has(m.wantlist, c)) ==> has(m.wantlist, c) && m.wantlist[c].Cancel == (old(m.wantlist[c].Cancel) || cancel)
+//@   ensures[merge_dont_have_is_sticky] old(has(m.wantlist, c)) ==> m.wantlist[c].SendDontHave == (old(m.wantlist[c].SendDontHave) || sendDontHave)
+//@   ensures[merge_block_overrides_have] old(has(m.wantlist, c)) ==> m.wantlist[c].Entry.WantType == ite(wantType == pb.Message_Wantlist_Block && old(m.wantlist[c].Entry.WantType) == pb.Message_Wantlist_Have, pb.Message_Wantlist_Block, old(m.wantlist[c].Entry.WantType))
+//@   ensures[merge_priority_of_same_type] old(has(m.wantlist, c)) ==> m.wantlist[c].Entry.Priority == ite(old(m.wantlist[c].Entry.WantType) == wantType, priority, old(m.wantlist[c].Entry.Priority)) && result == 0
+
+//@ func newMessageFromProto
+//@   prop C34
+//@   arith int-assumed
+//@   requires pbm != nil
+//@   modifies all
+//@   loop 0 invariant[wf] wfMsg(m)
+//@   loop 1 invariant[wf] wfMsg(m)
+//@   loop 2 invariant[wf] wfMsg(m)
+//@   loop 3 invariant[wf] wfMsg(m)
+//@   site[payload_cid_computed_not_claimed] call:NewWantlistBlock : arg1 == cid.Undef
+//@   site[legacy_blocks_are_hashed] call:impl.AddBlock#0 : arg1 == asIface(res("call:NewBlock#0", 0))
+//@   site[payload_blocks_are_hashed] call:impl.AddBlock#1 : arg1 == res("call:NewWantlistBlock#0", 0) && res("call:NewWantlistBlock#0", 1) == nil
+//@   site[presence_needs_a_defined_cid] call:impl.AddBlockPresence : res("call:Defined#0", 0)
